@@ -47,6 +47,22 @@ func checkC06(c *Ctx) {
 		return
 	}
 	// (a) kernel level
+	var mreqs, mimpl, mblk []string
+	flushMask := func() {
+		if len(mreqs) == 0 {
+			return
+		}
+		ans := c.Or.Ask(mreqs)
+		for i := range ans {
+			c.Ev.Count("kernel-vs-mask-model", []byte(mblk[i]), true)
+			if ans[i] != mimpl[i] {
+				c.Ev.Coverage.ModelDisagreements++
+				c.Violate("kernels", "a kernel's masks (odd_ends quote_mask quote_bits whitespace structurals_in structurals next-odd next-inquote next-pred error) differ from the mask-level model", "kernel-mask-model",
+					map[string]interface{}{"block_state_family": mblk[i], "impl": mimpl[i], "model": ans[i]})
+			}
+		}
+		mreqs, mimpl, mblk = mreqs[:0], mimpl[:0], mblk[:0]
+	}
 	special := []byte{'\\', '"', '{', ',', ' ', '\n', 0x1f, ':', ']', 0x80, 'a'}
 	nk := c.N(60000, 600000)
 	for i := 0; i < nk; i++ {
@@ -90,7 +106,24 @@ func checkC06(c *Ctx) {
 			c.Violate("kernels", "per-block kernels of the two families disagree", "kernel-block",
 				map[string]interface{}{"input_hex": fmt.Sprintf("%x", blk), "state": fmt.Sprint(st), "avx512": a + fmt.Sprint(fa, s1), "avx2": b + fmt.Sprint(fb, s2)})
 		}
+		// every intermediate mask of both families against the Coq mask-level model
+		// (Proofs/MaskModel.v, proved equal to the scalar model) on a sample of the blocks
+		if i%4 == 0 {
+			for fam := 0; fam < 2; fam++ {
+				oe, qm, qb, em, ws, si, _, _ := simdjson.VerifSubKernels(blk, st, fam == 0)
+				sx := st
+				f := simdjson.VerifFindStructuralBits(blk, &sx, fam == 0)
+				impl := fmt.Sprintf("%d %d %d %d %d %d %d %d %d %d", oe, qm, qb, ws, si, f, sx.OddBackslash, sx.InsideQuote, sx.PseudoPred, em)
+				mreqs = append(mreqs, fmt.Sprintf("maskblock 0 %d %d %d %d 0 %x", fam, st.OddBackslash, st.InsideQuote, st.PseudoPred, blk))
+				mimpl = append(mimpl, impl)
+				mblk = append(mblk, fmt.Sprintf("%x state=%v family=%d", blk, st, fam))
+			}
+			if len(mreqs) >= 4000 {
+				flushMask()
+			}
+		}
 	}
+	flushMask()
 	// (b) slice level vs each other and vs the model
 	var reqs []string
 	var msgs [][]byte
@@ -126,6 +159,44 @@ func checkC06(c *Ctx) {
 			doc = mutate(r, doc)
 		}
 		addMsg(doc, r.Chance(1, 4))
+	}
+	// the in-slice kernels (mask kernels + flatten_bits_incremental over a whole message, as
+	// one call) against the mask-level slice model: increments, carried, position, state
+	{
+		var sreqs, simpl, sinfo []string
+		for i, m := range msgs {
+			if len(m) == 0 || len(m) > 600 || i%2 == 1 {
+				continue
+			}
+			ndv := uint64(0)
+			ndS := "0"
+			if nds[i] {
+				ndv, ndS = 1, "1"
+			}
+			for fam := 0; fam < 2; fam++ {
+				st := simdjson.VerifKernelState{PseudoPred: 1}
+				idx := make([]uint32, int(simdjson.VerifConsts()["indexSize"]))
+				n := 0
+				carried, position := uint64(0), ^uint64(0)
+				simdjson.VerifSliceKernel(m, &st, idx, &n, &carried, &position, ndv, fam == 0)
+				parts := make([]string, n)
+				for k := 0; k < n; k++ {
+					parts[k] = fmt.Sprint(idx[k])
+				}
+				simpl = append(simpl, fmt.Sprintf("%s %d %d %d %d %d %d", strings.Join(parts, ","), carried, position, st.OddBackslash, st.InsideQuote, st.PseudoPred, st.ErrorMask))
+				sreqs = append(sreqs, "maskslice "+ndS+" "+hexOrDash(m))
+				sinfo = append(sinfo, fmt.Sprintf("%x nd=%v family=%d", m, nds[i], fam))
+			}
+		}
+		sans := c.Or.Ask(sreqs)
+		for i := range sans {
+			c.Ev.Count("slice-vs-mask-model", []byte(sinfo[i]), true)
+			if sans[i] != simpl[i] {
+				c.Ev.Coverage.ModelDisagreements++
+				c.Violate("kernels", "the in-slice kernel's output (increments, carried, position, carried state) differs from the mask-level slice model", "slice-mask-model",
+					map[string]interface{}{"input_nd_family": sinfo[i], "impl": trunc(simpl[i], 500), "model": trunc(sans[i], 500)})
+			}
+		}
 	}
 	ans := c.Or.Ask(reqs)
 	for i, m := range msgs {
